@@ -40,6 +40,14 @@ class C12(Harness):
             out.append({'feat': feat, 'mode': 'break_apart', 'gen': 'sym1x', 'n': 3 if q else 5, 'tokens': TOK})
             out.append({'feat': feat, 'mode': 'break_apart', 'gen': 'symallx', 'n': 3 if q else 4, 'tokens': TOK[:1]})
             out.append({'feat': feat, 'mode': 'break_words', 'gen': 'sym1x', 'n': 3 if q else 4, 'tokens': TOK[:1]})
+        # word templates: realistic long / hyphenated / coloured / wide words with symbolic positions
+        WT = ['foo-b?r-baz', 'x?--y-?z', 'a\u4f60?\u597dbc?', '\x1b[1mbo?d\x1b[0m-t?xt', 'aaaa?aaaaaaa', '?\u0301e\u0301-\u00bf']
+        for t in WT:
+            out.append({'feat': 'full', 'mode': 'split_points', 'split': 'H', 'gen': 'tmpl', 'tmpl': t})
+            for sp in ('N', 'H', 'C1', 'C2', 'C3'):
+                out.append({'feat': 'full', 'mode': 'split_words', 'split': sp, 'gen': 'tmpl', 'tmpl': t})
+            out.append({'feat': 'full', 'mode': 'break_apart', 'gen': 'tmpl', 'tmpl': t})
+            out.append({'feat': 'full', 'mode': 'break_words', 'gen': 'tmpl', 'tmpl': t})
         return out
 
     def bounds_text(self, tier):
@@ -52,6 +60,8 @@ class C12(Harness):
     def gen_word(self, I, cfg):
         g = cfg['gen']
         n = cfg.get('n', 0)
+        if g == 'tmpl':
+            return gen_tmpl(I, cfg['tmpl'], 'w')
         if g == 'hyph':
             # structured hyphenated word: 1..nseg segments of 1..2 symbolic characters joined by '-' (or '--')
             chars = []
